@@ -101,6 +101,9 @@ class TrackingBackend:
         job_id = self.ops.submit_target(target, dependency_ids)
         self._tracked_jobs[target.name] = job_id
         self._job_states[job_id] = BackendStatus.SUBMITTED
+        # Remember the job right away. If gwf is interrupted later in this
+        # run, the next invocation must still know that it was accepted.
+        self._save_tracked_jobs()
 
     def cancel(self, target):
         try:
@@ -108,10 +111,13 @@ class TrackingBackend:
         except KeyError as exc:
             raise TargetError(target.name) from exc
 
-    def close(self):
-        self.ops.close()
+    def _save_tracked_jobs(self):
         with open(self._get_state_path(), "w") as state_file:
             json.dump(self._tracked_jobs, state_file)
+
+    def close(self):
+        self.ops.close()
+        self._save_tracked_jobs()
 
     @property
     def target_defaults(self):
